@@ -201,14 +201,29 @@ def run(inp):
     kind = inp[0]
     if kind == "pair":
         f, g = build(inp[1]), build(inp[2])
-        return {"eq": f == g, "ne": f != g, "eq_rev": g == f,
-                "hash_eq": hash(f) == hash(g), "in_set": f in {g}, "in_dict": f in {g: 0},
+        if (len(inp[1]) + len(inp[2])) % 2:
+            # hashing and membership FIRST, on operands nothing has rendered yet (== and str() memoise)
+            hash_eq = hash(f) == hash(g)
+            in_set, in_dict = f in {g}, f in {g: 0}
+            eq, ne, eq_rev = f == g, f != g, g == f
+        else:
+            eq, ne, eq_rev = f == g, f != g, g == f
+            hash_eq = hash(f) == hash(g)
+            in_set, in_dict = f in {g}, f in {g: 0}
+        return {"eq": eq, "ne": ne, "eq_rev": eq_rev, "hash_eq": hash_eq, "in_set": in_set, "in_dict": in_dict,
                 "sf": str(f), "sg": str(g), "runs_f": canon.canon_fs(f), "runs_g": canon.canon_fs(g)}
     if kind == "withstr":
         f, s = build(inp[1]), inp[2]
-        return {"eq": f == s, "eq_rev": s == f, "ne": f != s, "ne_rev": s != f,
-                "hash_eq": hash(f) == hash(s), "f_in_s": f in {s}, "s_in_f": s in {f},
-                "sf": str(f), "runs_f": canon.canon_fs(f)}
+        if (len(inp[1]) + len(s)) % 2:
+            hash_eq = hash(f) == hash(s)                 # before anything renders f
+            f_in_s, s_in_f = f in {s}, s in {f}
+            eq, eq_rev, ne, ne_rev = f == s, s == f, f != s, s != f
+        else:
+            eq, eq_rev, ne, ne_rev = f == s, s == f, f != s, s != f
+            hash_eq = hash(f) == hash(s)
+            f_in_s, s_in_f = f in {s}, s in {f}
+        return {"eq": eq, "eq_rev": eq_rev, "ne": ne, "ne_rev": ne_rev, "hash_eq": hash_eq, "f_in_s": f_in_s,
+                "s_in_f": s_in_f, "sf": str(f), "runs_f": canon.canon_fs(f)}
     if kind == "repr":
         f = build(inp[1])
         runs_f = canon.canon_fs(f)
